@@ -173,6 +173,17 @@ Theorem C03_parse_script :
 Proof. exact CompleteTree.parse_script. Qed.
 Print Assumptions C03_parse_script.
 
+(* hash comments before top-level commands end up, stripped, in the comments of exactly that command; nothing else changes *)
+Theorem C03_parse_commented_script :
+  forall (T : tables) (text : bytes) (tops : list (list bytes * gcmd)) 
+    (ns : list node) (L' : list bytes),
+  twf_tables T = true ->
+  snd (lex text) = None ->
+  map strip_pos (fst (lex text)) = flat_map toks_top tops ->
+  wf_tops T [] None tops ns L' -> parse T text = Accept ns.
+Proof. exact CompleteTree.parse_commented_script. Qed.
+Print Assumptions C03_parse_commented_script.
+
 (* non-vacuity on the generated tables *)
 Theorem C03_script_example :
   exists (L' : list bytes) (ns : list node),
